@@ -113,7 +113,8 @@ def build_http_request(
     no_ua: bool = False,
 ) -> bytes:
     """Build and returns a HTTP request packet."""
-    headers = headers or {}
+    # Never modify the caller's dictionary, it may be shared between requests
+    headers = dict(headers) if headers else {}
     if content_type is not None:
         headers[b'Content-Type'] = content_type
     has_transfer_encoding = False
@@ -148,13 +149,17 @@ def build_http_response(
     line = [protocol_version, bytes_(status_code)]
     if reason:
         line.append(reason)
-    headers = headers or {}
+    # Never modify the caller's dictionary, it may be shared between responses
+    headers = dict(headers) if headers else {}
     has_transfer_encoding = False
     for k, _ in headers.items():
         if k.lower() == b'transfer-encoding':
             has_transfer_encoding = True
             break
     if not has_transfer_encoding and not no_cl:
+        # Header names are case insensitive, replace whatever length was passed
+        for k in [k for k in headers if k.lower() == b'content-length']:
+            del headers[k]
         headers[b'Content-Length'] = bytes_(len(body)) if body else b'0'
     return build_http_pkt(line, headers, body, conn_close)
 
@@ -172,7 +177,7 @@ def build_http_pkt(
 ) -> bytes:
     """Build and returns a HTTP request or response packet."""
     pkt = WHITESPACE.join(line) + CRLF
-    headers = headers or {}
+    headers = dict(headers) if headers else {}
     if conn_close:
         headers[b'Connection'] = b'close'
     for k, v in headers.items():
